@@ -306,7 +306,31 @@ def through_imported_variables():
     return None
 
 
+NML_FILES = {
+    "src/a.f90": "module m_a\n  implicit none\n  integer :: x\n  character(len=3) :: tag = 'abc'\nend module m_a\n",
+    "src/b.f90": "module m_b\n  use m_a, zx => x\n  implicit none\nend module m_b\n",
+    "src/c.f90": ("module m_c\n  use m_b, only: lx => zx\n  use m_a, only: tag\n  implicit none\n  namelist /nml/ lx\ncontains\n  subroutine s(tag)\n    character(len=*), intent(in) :: tag\n    namelist /inner/ tag, lx\n"
+                  "  end subroutine s\nend module m_c\n"),
+}
+
+
+def namelist_members():
+    """the members of a namelist are the variables their names denote in the scope of the NAMELIST statement: a use-associated variable under its local name (through any chain of
+    renames), a dummy argument before a host variable of the same name"""
+    proj = realrun.build_project(NML_FILES)
+    c = next(m for m in proj.modules if m.name == "m_c")
+    show = lambda v: v if isinstance(v, str) else (v.name, v.full_type, getattr(getattr(v, "parent", None), "name", None))
+    got = {"nml": [show(v) for v in c.namelists[0].variables], "inner": [show(v) for v in c.subroutines[0].namelists[0].variables]}
+    want = {"nml": [("x", "integer", "m_a")], "inner": [("tag", "character(len=*)", "s"), ("x", "integer", "m_a")]}
+    if got != want:
+        return {"members": got, "expected": want}
+    return None
+
+
 def search():
+    bad = namelist_members()
+    if bad:
+        return {"confirmed": True, "input": {"files": NML_FILES}, "actual": bad, "expected": "namelist members resolve by the scope's names", "how": "bounded search on the real pipeline: namelists naming renamed and shadowed variables"}
     bad = through_imported_variables()
     if bad:
         return {"confirmed": True, "input": {"files": VIA_IMPORTED}, "actual": bad, "expected": "calls through use-associated variables resolve to the binding of the exporting module's type",
